@@ -2,13 +2,13 @@
 
    Statements only; the proofs are in Proofs/FileLoaderProofs.v, the model in Model/FileLoader.v.
    Quantification: all worlds (directory layouts as filepath.Walk lists them, one loader root per module;
-   a single file-based loader or a dependency loader over several; any set of names bound by the parent
-   loader), all sequences of operations `ops` (lookups through any contexts, HasEntry, Discover, ...), all
+   a single file-based loader, a dependency loader over several, or a chain of file-based loaders each the
+   parent of the one before - environment <- module; any set of names bound by the system loader above them), all sequences of operations `ops` (lookups through any contexts, HasEntry, Discover, ...), all
    layer counts `fuel` (an exhausted model answers OFuel, never OFound / OErr, so the statements hold for every
    fuel).  `reach w fuel ops` is the loader state after `ops`; `lookup_after w fuel ops ctx name` is one more
    lookup in that state.  The only hypothesis, `shadow_wf w`, says that the parent loader binds a type under
    the key of its name (checked on every case of the correspondence run). *)
-From Coq Require Import ZArith NArith Bool List String Ascii.
+From Coq Require Import ZArith NArith Bool List String Ascii Lia.
 From PcoreV Require Import Model.Base Model.FileLoader Proofs.FileLoaderProofs.
 Import ListNotations.
 Local Open Scope nat_scope.
@@ -135,6 +135,25 @@ Theorem C15_good_file_found :
 Proof. exact step_leaf_file. Qed.
 Print Assumptions C15_good_file_found.
 
+(* ---- a chain of file-based loaders: a binding of a loader up the chain is found through the loaders below ------ *)
+(* Loaders 0 .. length-1, the parent of loader i is loader i+1 (TopChain; the top loader, through which the lookup
+   goes, is loader 0).  In ANY state s in which loader j has the name bound and the loaders above j have cached
+   misses for it, the lookup through any context finds that definition, reads nothing and leaves the state as it
+   is - whatever the loaders below j hold for the name themselves (in particular a cached miss from the time
+   when the parent did not have the name yet: a TypeSet member that was asked for, through the child, while
+   the parent's TypeSet file was being instantiated - C15_example_chain_stale_miss).  "Found iff a definition
+   file exists" holds for every lookup of a sequence, not only the first. *)
+Theorem C15_chain_parent_binding_found :
+  forall w n s ctx name j v,
+    let k := norm_name name in
+    w_top w = TopChain -> shadow w k = None -> j < List.length (w_mods w) ->
+    get_entry s j k = Some (Some v) ->
+    (forall j', j < j' < List.length (w_mods w) -> get_entry s j' k = Some None) ->
+    exists v', step w (indexes_of w) (S n) s (OpLoad ctx name) = (s, (OFound v', [])) /\
+               tv_name v' = tv_name v /\ tv_ts v' = tv_ts v /\ (v' = v \/ tv_marker v' = 0%N).
+Proof. exact step_chain_parent_binding. Qed.
+Print Assumptions C15_chain_parent_binding_found.
+
 (* ---- non-vacuity: a concrete module, computed -------------------------------------------------------------- *)
 
 Definition s (x : string) : str := map N_of_ascii (list_ascii_of_string x).
@@ -231,4 +250,54 @@ Proof.
   - intros i. destruct i as [|i].
     + split; [vm_compute; reflexivity|]. intros a Ha. vm_compute in Ha. destruct Ha as [<-|[]]. vm_compute. reflexivity.
     + split; [|intros a _]; apply origin_of_out_of_range; cbn; apply le_n_S, Nat.le_0_l.
+Qed.
+
+(* a module loader whose parent is the environment's loader: the TypeSet file of the environment, a module file
+   that refers to a member of it, the module's own TypeSet; every name is found at every lookup, each file is
+   read once, HasEntry / Discover of the module loader include what the parent has *)
+Definition ex_chain : world :=
+  {| w_top := TopChain;
+     w_mods := [ {| m_name := s "moda";
+                    m_walk := [ ex_file "types" true CNoDef 0;
+                                ex_file "types/init_typeset.pp" false (CTypeSet (s "Moda") [s "Car"]) 20;
+                                ex_file "types/thing.pp" false (CGood (s "Moda::Thing") [s "Shapes::Circle"]) 10 ] |};
+                 {| m_name := s "environment";
+                    m_walk := [ ex_file "types" true CNoDef 0;
+                                ex_file "types/plain.pp" false (CGood (s "Plain") []) 40;
+                                ex_file "types/shapes.pp" false (CTypeSet (s "Shapes") [s "Circle"; s "Square"]) 30 ] |} ];
+     w_shadow := [] |}.
+
+Example C15_example_chain_run :
+  run ex_chain 8
+    [ OpLoad (-1) (s "Shapes::Circle"); OpLoad (-1) (s "Shapes::Circle"); OpLoad 0 (s "Moda::Thing"); OpLoad 0 (s "shapes::square");
+      OpLoad (-1) (s "Shapes"); OpLoad 0 (s "Plain"); OpLoad (-1) (s "Moda::Car"); OpLoad 1 (s "SHAPES::CIRCLE"); OpLoad 0 (s "Shapes::Oval");
+      OpHas 0 (s "Plain"); OpHas 1 (s "Moda::Thing"); OpDiscover 0 ]
+  = [ (OFound {| tv_name := s "shapes::circle"; tv_marker := 31; tv_ts := false |}, [(1, s "types/shapes.pp")]);
+      (OFound {| tv_name := s "shapes::circle"; tv_marker := 31; tv_ts := false |}, []);
+      (OFound {| tv_name := s "moda::thing"; tv_marker := 10; tv_ts := false |}, [(0, s "types/thing.pp")]);
+      (OFound {| tv_name := s "shapes::square"; tv_marker := 32; tv_ts := false |}, []);
+      (OFound {| tv_name := s "shapes"; tv_marker := 0; tv_ts := true |}, []);
+      (OFound {| tv_name := s "plain"; tv_marker := 40; tv_ts := false |}, [(1, s "types/plain.pp")]);
+      (OFound {| tv_name := s "moda::car"; tv_marker := 21; tv_ts := false |}, [(0, s "types/init_typeset.pp")]);
+      (OFound {| tv_name := s "shapes::circle"; tv_marker := 31; tv_ts := false |}, []);
+      (ONotFound, []);
+      (OBool true, []);
+      (OBool false, []);
+      (OList [s "init_typeset"; s "moda::thing"; s "plain"; s "shapes"], []) ].
+Proof. vm_compute. reflexivity. Qed.
+
+(* the hypotheses of C15_chain_parent_binding_found are satisfiable in a reachable state, with a stale cached miss
+   in the loader below: after the first lookup of Shapes::Circle through the module loader the environment's
+   loader (1) has the member bound and the module loader (0) holds the miss it cached while Shapes was resolved *)
+Example C15_example_chain_stale_miss :
+  let st := reach ex_chain 8 [OpLoad (-1) (s "Shapes::Circle")] in
+  let k := norm_name (s "SHAPES::circle") in
+  w_top ex_chain = TopChain /\ shadow ex_chain k = None /\ 1 < List.length (w_mods ex_chain) /\
+  get_entry st 1 k = Some (Some {| tv_name := k; tv_marker := 31; tv_ts := false |}) /\
+  get_entry st 0 k = Some None /\
+  (forall j', 1 < j' < List.length (w_mods ex_chain) -> get_entry st j' k = Some None).
+Proof.
+  cbv zeta. split; [reflexivity|]. split; [vm_compute; reflexivity|]. split; [apply Nat.lt_succ_diag_r|].
+  split; [vm_compute; reflexivity|]. split; [vm_compute; reflexivity|].
+  intros j' [H1 H2]. exfalso. change (List.length (w_mods ex_chain)) with 2 in H2. lia.
 Qed.
